@@ -78,3 +78,25 @@ CHECKS['C18'] = {
              'lazy-state word | row bucket | verdict | fresh-copy) tuples for relations that are neither empty nor universe, counted by hashing.'),
     'assumptions': ['GMP arithmetic', 'RefLP (/verif/ref/lp.hh)', 'affine Farkas lemma', 'n <= 4, <= 14 inequality rows'],
 }
+
+CHECKS['C17'] = {
+    'level': 'exploration',
+    'jobs': [{'engine': 'polyseq', 'variant': 'san', 'profile': 'wrap', 'quick': 1200, 'thorough': 30000, 'avg_case_s': 0.15}],
+    'prefixes': ['C17.'],
+    'required_counters': ['q.contains_integer_point', 'op.drop_some_non_integer_points', 'int_points_checked'],
+    'rule': POLY_RULE,
+    'assumptions': ['GMP arithmetic', 'integer points enumerated exhaustively in the bounded window of the argument'],
+}
+
+CHECKS['C07'] = {
+    'level': 'exploration',
+    'jobs': [{'engine': 'pipbrute', 'variant': 'san', 'profile': 'default', 'quick': 1200, 'thorough': 40000, 'avg_case_s': 0.4, 'case_timeout': 120}],
+    'prefixes': ['C07.'],
+    'required_counters': ['solves', 'solves.incremental', 'walk.point', 'walk.bottom', 'tree.with_cuts', 'tree.with_splits', 'mode.bigparam', 'op.add_constraint',
+                          'op.add_constraints', 'op.add_dims', 'op.add_params', 'runs.cut_all+pivot_max_column', 'ref.bruteforce_crosschecks',
+                          'reach.PIP_ROW_SIGN', 'reach.PIP_COMPAT_CHECK', 'reach.PIP_GENERATE_CUT'],
+    'rule': ('cases = random PIP histories (initial problem + 0-2 incremental stages) run under all six CUTTING x PIVOT_ROW strategy settings; evaluations = (solve, parameter valuation) '
+             'pairs whose documented tree walk was compared with an independent exact integer lexicographic minimum; distinct_nontrivial = distinct (strategy | stage op | #vars | #params | '
+             'big | tree shape D/A/B) with a non-trivial tree, counted by hashing.'),
+    'assumptions': ['GMP arithmetic', 'own exact ILP (unimodular elimination + branch and bound over RefLP, cross-checked by window brute force)', 'parameter values <= 8 (big parameter: 4 large values)'],
+}
